@@ -222,6 +222,10 @@ impl C09 {
         let reset_at: Option<i64> = if rng.chance(1, 3) { Some(rng.below(14) as i64) } else { None };
         let mut first_b_edge: Option<i64> = None;
         let mut reset_done = false;
+        // in half of the key cases a second press lands on a seeded edge inside the instruction under
+        // test or inside the interrupt entry that follows it (also on the `int:` word itself)
+        let press2_at: Option<i64> = if key && rng.bool() { Some(rng.below(30) as i64) } else { None };
+        let mut press2_done = false;
         loop {
             if let (Some(off), Some(b0)) = (reset_at, first_b_edge) {
                 if !reset_done && ls.edge >= b0 + off && ls.ended.is_none() {
@@ -230,6 +234,17 @@ impl C09 {
                     mon.reset(&ls.sut);
                     ctx.cov.fault("RST-CPU");
                     boundaries = 0;
+                }
+            }
+            if let (Some(off), Some(b0)) = (press2_at, first_b_edge) {
+                if !press2_done && pressed && ls.edge >= b0 + off && ls.ended.is_none() {
+                    press2_done = true;
+                    ls.stim(&Stim::KeyInt).map_err(label)?;
+                    ctx.cov.fault("K-INT-2");
+                    let w = control_word(&ls.sut);
+                    if PAGE_END.iter().any(|(_, i)| super::c09::w(*i as usize) == w) {
+                        ctx.cov.probe("second-press-on-an-int-word");
+                    }
                 }
             }
             let ev = ls.tick().map_err(label)?;
